@@ -72,6 +72,13 @@ def directed_families():
     F.append(("el", ["bin", "*", ["el", _x, 2], ["el", ["slice", _x, 1, 4, None], 0]]))
     F.append(("mel", ["bin", "*", ["mel", _A, 1, 2], ["mel", ["T", _A], 2, 0]]))
     F.append(("mel:sym", ["bin", "-", ["mel", _Gm, 2, 0], ["bin", "*", ["raw", 2, "int"], ["mel", _Gm, 0, 2]]]))
+    # pure bilinear / scaled terms over exactly their own variables (rows of the form c * <variable>)
+    F.append(("bilinear:2ab", ["bin", "*", ["bin", "*", ["raw", 2, "int"], _a], _b]))
+    F.append(("bilinear:a(b2)", ["bin", "*", _a, ["bin", "*", _b, ["raw", 2.0, "float"]]]))
+    F.append(("bilinear:-3ba", ["bin", "*", ["bin", "*", ["raw", -3.0, "float"], _b], _a]))
+    F.append(("bilinear:ab+b*x2", ["bin", "+", ["bin", "*", _a, _b], ["bin", "*", _b, _x2]]))
+    F.append(("scaled:3a", ["bin", "*", ["raw", 3.0, "float"], _a]))
+    F.append(("scaled:sq-sum", ["bin", "+", ["bin", "**", _a, ["raw", 2, "int"]], ["bin", "**", _b, ["raw", 2, "int"]]]))
     # vector reductions
     F.append(("sum:vec", ["sum", _x]))
     F.append(("sum:slice", ["sum", ["slice", _x, 1, 3, None]]))
